@@ -34,6 +34,8 @@ type sched struct {
 	// fifo: canonical order is strictly oldest first (the thread that ran last is not preferred)
 	fifo  bool
 	trace *[]string
+	// onDeliver: called for every delivery the scheduler grants
+	onDeliver func(d nats.PendingDelivery)
 }
 
 var traceEnv = os.Getenv("VERIF_TRACE") != ""
@@ -119,6 +121,9 @@ func (s *sched) step(extra int, label string) (granted bool, extraChoice int) {
 		s.gates.grant(p[c].gate)
 	} else {
 		s.buses[p[c].bus].Grant(p[c].d)
+		if s.onDeliver != nil {
+			s.onDeliver(p[c].d)
+		}
 	}
 	s.grants++
 	s.x.Step(1)
